@@ -66,7 +66,10 @@ def shapes(kind):
 # (Python's bool("0") is True).  Strings other than "0" / "1" have no truth value here: rejected by both.
 from cohdl._core._boolean import _Boolean  # noqa: E402
 
-BOOL_LITERALS = {"'0'": ("0", False), "'1'": ("1", True), "True": (True, True), "False": (False, False), "0": (0, False), "1": (1, True), "'x'": ("x", None), "''": ("", None), "'01'": ("01", None)}
+BOOL_LITERALS = {"'0'": ("0", False), "'1'": ("1", True), "True": (True, True), "False": (False, False), "0": (0, False), "1": (1, True), "'x'": ("x", None), "''": ("", None), "'01'": ("01", None),
+                 # "integer literals must be representable in the target": 2 and -1 are not truth values (`flag <<= 2` is rejected; the
+                 # initialisation forms Variable[bool](2) / branch merges go through the constructor)
+                 "2": (2, None), "-1": (-1, None)}
 
 
 def bool_spec(want):
@@ -94,3 +97,33 @@ for kind in ("same-object", "view-of-same-root", "other-object-equal-value", "vi
     # `a == b` on qualified objects compares the compile-time VALUES: both placeholders hold the same value here
     c.models = [(TypeQualifier.__dict__["__eq__"], lambda it, self, other: True), (TypeQualifier.__dict__["__ne__"], lambda it, self, other: False)]
     con.cases.append(c)
+
+
+_BOOL_INIT_DESIGN = '''
+from cohdl import Entity, Port, Bit, Variable, std
+class BoolInit(Entity):
+    clk = Port.input(Bit)
+    o = Port.output(bool)
+    def architecture(self):
+        @std.sequential(std.Clock(self.clk))
+        def proc():
+            v = Variable[bool](2)
+            self.o <<= v
+try:
+    t = std.VhdlCompiler.to_string(BoolInit)
+    print("ACCEPTED", [l.strip() for l in t.splitlines() if ":= true" in l])
+except AssertionError:
+    print("REJECTED")
+'''
+
+
+def replay_bool_init(payload):
+    from contracts.c06_extra import _run_design
+
+    rc, out = _run_design(_BOOL_INIT_DESIGN)
+    return {"reproduced": "ACCEPTED" in out, "detail": "`Variable[bool](2)` (the literal 2 is not representable in a bool; `flag <<= 2` is rejected): " + out[-80:]}
+
+
+for _c in C.CONTRACTS["cohdl._core._boolean:_Boolean.__init__"].cases:
+    if _c.name in ("literal:2", "literal:-1"):
+        _c.custom_replay = "contracts.c05_castsetter.replay_bool_init"
